@@ -52,3 +52,13 @@ package clusters
 //@   loop 0: invariant [bounds] 0 <= idx && idx <= len(s.upstreams)
 //@   loop 0: invariant [sound] forall x *EndpointInfo :: {has(readyEndpoints, x)} has(readyEndpoints, x) ==> x != nil && !x.status.Disabled && x.status.Healthy && exists n int :: {s.upstreams[n]} 0 <= n && n < idx && smhas(EPS, box(s.upstreams[n])) && x == unbox(smget(EPS, box(s.upstreams[n])), "*EndpointInfo")
 //@   loop 0: invariant [complete] forall n int :: {s.upstreams[n]} 0 <= n && n < idx && smhas(EPS, box(s.upstreams[n])) && !unbox(smget(EPS, box(s.upstreams[n])), "*EndpointInfo").status.Disabled && unbox(smget(EPS, box(s.upstreams[n])), "*EndpointInfo").status.Healthy ==> has(readyEndpoints, unbox(smget(EPS, box(s.upstreams[n])), "*EndpointInfo"))
+
+//@ interface (EndpointPicker).FlowControl(p) props C05, C04
+//@   pure-def pickerFC(p)
+//@ interface (EndpointPicker).FlowControlName(p) props C05, C04
+//@   pure-def pickerFCName(p)
+//@ interface (EndpointPicker).EnableLog(p) props C05, C04
+//@   pure
+//@ interface (EndpointPicker).Pop(p) props C05, C04
+//@   modifies smap(&unbox(p, "*endpointPickStrategy").cluster.loadbalancer), cells("uint64"), popfailed
+//@   ensures (result1 == nil ==> result != nil && popfailed == old(popfailed)) && (result1 != nil ==> result == nil && popfailed == old(popfailed) + 1)
